@@ -132,7 +132,7 @@ pub fn gen_value(rng: &mut Rng, k: &Knobs, class: &str) -> SV {
   }
 }
 
-fn undefined_names<'a>(k: &'a Knobs, m: &Model) -> Vec<&'a String> {
+fn nosuchvars<'a>(k: &'a Knobs, m: &Model) -> Vec<&'a String> {
   k.names.iter().filter(|n| !m.store.contains_key(*n)).collect()
 }
 fn names_where<'a>(m: &'a Model, f: impl Fn(&Binding) -> bool) -> Vec<&'a String> {
@@ -213,13 +213,13 @@ fn other_kind(rng: &mut Rng, kind: &str) -> String {
 
 fn failing_source(rng: &mut Rng, k: &Knobs, m: &Model) -> Expr {
   match rng.below(5) {
-    0 => Expr::Var("undefined_name".into()),
+    0 => Expr::Var("nosuchvar".into()),
     1 => Expr::LitOp(SV::f64(1.0), Bop::Add, SV::Str("a".into())),
     2 => Expr::LitOp(SV::Int(NK::U8, 1), Bop::Sub, SV::Int(NK::U8, 2)),
     3 => Expr::LitOp(SV::Int(NK::I64, 7), Bop::Div, SV::Int(NK::I64, 0)),
     _ => {
       let mats = names_where(m, |b| b.v.is_matrix());
-      if mats.is_empty() { return Expr::VarOp("undefined_name".into(), Bop::Add, SV::f64(1.0)); }
+      if mats.is_empty() { return Expr::VarOp("nosuchvar".into(), Bop::Add, SV::f64(1.0)); }
       let n = (*rng.pick(&mats)).clone();
       let _ = k;
       Expr::VarIdx(n, Sub::One(Ix::S(99)))
@@ -229,7 +229,7 @@ fn failing_source(rng: &mut Rng, k: &Knobs, m: &Model) -> Expr {
 
 pub fn next_op(rng: &mut Rng, k: &Knobs, m: &Model) -> Op {
   let fault = rng.below(1000) < k.fault_pm as u64;
-  let undefined = undefined_names(k, m);
+  let undefined = nosuchvars(k, m);
   let defined: Vec<&String> = m.store.keys().collect();
   // too few names: define something
   if defined.len() < 1 || (defined.len() < 2 && rng.chance(1, 2)) {
@@ -260,7 +260,7 @@ pub fn next_op(rng: &mut Rng, k: &Knobs, m: &Model) -> Op {
 }
 
 fn gen_define(rng: &mut Rng, k: &Knobs, m: &Model, fault: bool) -> Op {
-  let undefined = undefined_names(k, m);
+  let undefined = nosuchvars(k, m);
   let defined: Vec<&String> = m.store.keys().collect();
   let mutable = rng.chance(1, 2);
   if (fault && !defined.is_empty() && rng.chance(1, 2)) || undefined.is_empty() {
@@ -321,7 +321,7 @@ fn gen_define(rng: &mut Rng, k: &Knobs, m: &Model, fault: bool) -> Op {
 fn pick_target<'a>(rng: &mut Rng, k: &'a Knobs, m: &'a Model, fault: bool, pred: impl Fn(&Binding) -> bool) -> Option<(String, bool)> {
   // returns (name, is_fault_target). Fault targets: undefined (f2) or immutable (f3) names.
   if fault && rng.chance(1, 2) {
-    let undefined = undefined_names(k, m);
+    let undefined = nosuchvars(k, m);
     let immut = names_where(m, |b| !b.mutable && pred(b));
     if !immut.is_empty() && (undefined.is_empty() || rng.chance(2, 3)) { return Some(((*rng.pick(&immut)).clone(), true)); }
     if !undefined.is_empty() { return Some(((*rng.pick(&undefined)).clone(), true)); }
@@ -332,7 +332,10 @@ fn pick_target<'a>(rng: &mut Rng, k: &'a Knobs, m: &'a Model, fault: bool, pred:
 }
 
 fn gen_assign(rng: &mut Rng, k: &Knobs, m: &Model, fault: bool) -> Option<Op> {
-  let (name, ft) = pick_target(rng, k, m, fault, |_| true)?;
+  // whole-value assignment to records/tuples/sets/tables is not implemented in Mech (always an
+  // error): keep it in the mix, but mostly aim at scalars and matrices
+  let structured_ok = rng.chance(1, 5);
+  let (name, ft) = pick_target(rng, k, m, fault, |b| structured_ok || b.v.is_scalar() || b.v.is_matrix())?;
   let cur = m.store.get(&name).map(|b| b.v.clone());
   let e = match cur {
     None => Expr::Lit(gen_scalar(rng, "f64")),
@@ -475,7 +478,7 @@ fn gen_tuple_assign(rng: &mut Rng, k: &Knobs, m: &Model, fault: bool) -> Option<
 }
 
 fn gen_destructure(rng: &mut Rng, k: &Knobs, m: &Model, fault: bool) -> Option<Op> {
-  let undefined = undefined_names(k, m);
+  let undefined = nosuchvars(k, m);
   let tuples = names_where(m, |b| matches!(b.v, SV::Tuple(_)));
   let (e, len) = if !tuples.is_empty() && rng.chance(2, 3) {
     let t = (*rng.pick(&tuples)).clone();
